@@ -465,6 +465,40 @@ def selftest_determinism(runs):
     return 0 if ok else 2
 
 
+def selftest_regress():
+    """Every `fixed` entry of known_findings.json: its regression replay must
+    reproduce the violation on the parent of the fix commit and be silent on
+    the fix commit itself (scratch clone of /repo, removed afterwards)."""
+    import shutil
+    scratch = '/var/tmp/verif-selftest-regress'
+    shutil.rmtree(scratch, ignore_errors=True)
+    os.makedirs(scratch)
+    subprocess.run(['git', 'clone', '-q', '/repo', scratch + '/repo'], check=True)
+    ok = True
+    report = []
+    for e in json.load(open(KNOWN))['findings']:
+        if e.get('status') != 'fixed':
+            continue
+        rp = VERIF + '/' + e['regression_replay']
+        res = {}
+        for label, rev, want in (('before', e['commit'] + '^', 1), ('after', e['commit'], 0)):
+            subprocess.run(['git', '-C', scratch + '/repo', 'checkout', '-q', '--detach', rev], check=True)
+            if label == 'before':
+                # the verification hook is needed to build; it was committed before every fix
+                pass
+            env = dict(os.environ, VERIF_REPO=scratch + '/repo', VERIF_SCRATCH=scratch + '/out')
+            p = subprocess.run([VERIF + '/check', 'replay', rp], env=env, stdout=subprocess.PIPE, stderr=subprocess.STDOUT, text=True)
+            res[label] = p.returncode
+            ok = ok and p.returncode == want
+        say('%s %s (%s): replay exits %d before the fix, %d after  %s' % (e['id'], e['property'], e['commit'], res['before'], res['after'],
+                                                                       'ok' if (res['before'], res['after']) == (1, 0) else 'UNEXPECTED'))
+        report.append({'id': e['id'], 'property': e['property'], 'commit': e['commit'], 'replay': e['regression_replay'], 'exit_before_fix': res['before'], 'exit_after_fix': res['after']})
+    shutil.rmtree(scratch, ignore_errors=True)
+    with open(VERIF + '/selftest_regress.json', 'w') as f:
+        json.dump({'results': report}, f, indent=1)
+    return 0 if ok else 2
+
+
 T0 = time.time()
 
 
@@ -481,6 +515,8 @@ def main(argv):
             return 0
         if cmd == 'replay':
             return replay(argv[2])
+        if cmd == 'selftest-regress':
+            return selftest_regress()
         if cmd == 'selftest-determinism':
             return selftest_determinism(int(argv[2]) if len(argv) > 2 else 20000)
         if cmd in CLAIMED:
